@@ -2,7 +2,7 @@
 // History harness: a skeleton vector selects limit and the operation kinds; pushed values are symbolic.
 // A reference model (accepted FIFO, blocked FIFO, waiting-pop FIFO) predicts the state of every future
 // after every step; the real limited_queue<int> must agree.
-#include "vf.h"
+#include "vf_cocls.h"
 #include <cocls/queue.h>
 using namespace cocls;
 
@@ -150,6 +150,108 @@ extern "C" void h_lq() {
         for (int i = 0; i < npush; ++i) { check_slot(pushes[i], false); vf_out(pushes[i].exp); }
     }
     VF_ASSERT(vf_live_allocs() == base, "C10 nothing leaked (items, blocked entries, exceptions' holders)");
+    vf_choice_end();
+    vf_witness();
+}
+
+// ---------------------------------------------------------------------------------------------------------------------------
+// h_lq_conc: two operations of different threads interleaved at lock-region granularity.
+// After a short sequential prefix, operation A runs with the other thread's operation B injected in front of A's k-th mutex
+// acquisition (k = 1: B first; k beyond A's last acquisition: B after A). The oracle states the property directly at quiescence
+// and after draining, for either order of the two concurrent operations.
+namespace {
+constexpr int CMAX = 10;
+struct Conc {
+    LQ *q;
+    PushSlot pushes[CMAX]; int npush = 0; int push_time[CMAX];
+    PopSlot pops[CMAX]; int npop = 0; int pop_time[CMAX];
+    int withdrawn = 0;
+    int clock = 0;         // real-time stamps: the two concurrent operations share one stamp
+};
+Conc *cc;
+int conc_bkind, conc_bval, conc_stamp;
+
+void conc_op(int kind, int v, int stamp) {
+    Conc &c = *cc;
+    if (kind == 0) { PushSlot &p = c.pushes[c.npush]; p.val = v; c.push_time[c.npush] = stamp; c.npush++; p.f << [&] { return c.q->push(v); }; }
+    else if (kind == 1) { PopSlot &s = c.pops[c.npop]; c.pop_time[c.npop] = stamp; c.npop++; s.f << [&] { return c.q->pop(); }; }
+    else { bool r = c.q->unblock_push(std::make_exception_ptr(tag_exc{7})); if (r) c.withdrawn++; }
+}
+void conc_injected() { conc_op(conc_bkind, conc_bval, conc_stamp); }
+
+void conc_quiescent(int limit) {
+    Conc &c = *cc;
+    int pend_push = 0, pend_pop = 0;
+    for (int i = 0; i < c.npush; i++) if (c.pushes[i].f.pending()) pend_push++;
+    for (int i = 0; i < c.npop; i++) if (c.pops[i].f.pending()) pend_pop++;
+    int sz = (int)c.q->size();
+    VF_ASSERT(sz <= limit, "C10 more items waiting than the limit allows");
+    if (pend_push) VF_ASSERT(sz >= limit, "C10 a push stays pending although fewer than the limit items are waiting");
+    if (pend_pop) VF_ASSERT(sz == 0 && pend_push == 0, "C10 a pop stays pending although an item is available (lost hand-over)");
+}
+}
+
+extern "C" void h_lq_conc() {
+    vf_warmup();
+    const int limit = 1 + vf_choice(2);
+    const int nprefix = vf_choice(4);
+    long base = vf_live_allocs();
+    {
+        Conc c; cc = &c;
+        int vals[CMAX];
+        for (int i = 0; i < CMAX; i++) vals[i] = nondet_int();
+        for (int i = 0; i < CMAX; i++) for (int j = i + 1; j < CMAX; j++) VF_ASSUME(vals[i] != vals[j]);
+        int nv = 0;
+        {
+            LQ q(limit); c.q = &q;
+            for (int i = 0; i < nprefix; i++) { conc_op(vf_choice(2), vals[nv++], ++c.clock); }
+            conc_quiescent(limit);
+            const int akind = vf_choice(2);
+            conc_bkind = vf_choice(3);
+            const int k = 1 + vf_choice(3);
+            conc_stamp = ++c.clock; conc_bval = vals[nv++];
+            vf_inject_arm(&conc_injected, k);
+            conc_op(akind, vals[nv++], conc_stamp);
+            if (vf_inject_pending()) { vf_inject_disarm(); conc_injected(); }
+            conc_quiescent(limit);
+            // drain: match every push with a pop and every pop with a push
+            int live_pushes = c.npush - c.withdrawn;
+            while (c.npop < live_pushes && c.npop < CMAX) conc_op(1, 0, ++c.clock);
+            while (c.npush - c.withdrawn < c.npop && c.npush < CMAX) conc_op(0, vals[nv++], ++c.clock);
+            conc_quiescent(limit);
+            // every pop is complete, every push is complete or was withdrawn with the exception
+            int got[CMAX]; int ngot = 0;
+            for (int i = 0; i < c.npop; i++) {
+                VF_ASSERT(c.pops[i].f.ready(), "C10 a pop never completes although every push was matched (lost item)");
+                bool ok = true; int v = 0;
+                try { v = c.pops[i].f.value(); } catch (...) { ok = false; }
+                VF_ASSERT(ok, "C10 a pop completed without a value although nobody unblocked it");
+                got[ngot++] = v;
+            }
+            int exc = 0;
+            for (int i = 0; i < c.npush; i++) {
+                VF_ASSERT(c.pushes[i].f.ready(), "C10 a push never completes although pops made room");
+                if (exc_tag_of(c.pushes[i].f) == 7) exc++;
+            }
+            VF_ASSERT(exc == c.withdrawn, "C10 unblock_push failed a different number of pushes than it reported");
+            // each delivered value is a pushed value, delivered once; pushes ordered in real time are delivered in that order
+            int pos[CMAX];
+            for (int i = 0; i < c.npush; i++) {
+                pos[i] = -1;
+                for (int g = 0; g < ngot; g++) if (got[g] == c.pushes[i].val) { VF_ASSERT(pos[i] < 0, "C10 an item was delivered twice"); pos[i] = g; }
+            }
+            int delivered = 0;
+            for (int i = 0; i < c.npush; i++) if (pos[i] >= 0) delivered++;
+            VF_ASSERT(delivered == ngot, "C10 a pop delivered a value that was never pushed");
+            VF_ASSERT(delivered == c.npush - c.withdrawn, "C10 an item was lost");
+            for (int i = 0; i < c.npush; i++) for (int j = 0; j < c.npush; j++)
+                if (pos[i] >= 0 && pos[j] >= 0 && c.push_time[i] < c.push_time[j])
+                    // two pops that overlap in time are two consumers: which of them gets the earlier item is not constrained
+                    VF_ASSERT(!(c.pop_time[pos[i]] > c.pop_time[pos[j]]), "C10 items were delivered out of push order");
+            vf_out(ngot * 10 + c.withdrawn);
+        }
+    }
+    VF_ASSERT(vf_live_allocs() == base, "C10 nothing leaked");
     vf_choice_end();
     vf_witness();
 }
